@@ -213,6 +213,11 @@ def main():
             run.count(k, n_)
         for b in v["bad"]:
             run.violation(b["what"].split(":")[0], b, mech={"what": b["what"]})
+    # ---- history workloads: objects used, modified through their setters / re-used, used again (vf/history.py) ----
+    from vf.sandbox import run_extra as _run_extra
+    from vf.common import seed as _seed, tier as _tier
+    _run_extra(run, "vf.history:h_network_swap", [{"seed": _seed(), "idx": _i} for _i in range(800 if _tier() == "thorough" else 80)], cpu_budget=120, kind_prefix="history: ")
+    _run_extra(run, "vf.history:h_fractional_stochastic", [{"seed": _seed(), "idx": _i} for _i in range(1200 if _tier() == "thorough" else 120)], cpu_budget=60, kind_prefix="history: ")
     return run.finish()
 
 
